@@ -281,7 +281,8 @@ func (G *gen) blocks(fx *fixture) {
 	G.c.Line("new block "+fx.kind, "ok")
 	r, w := G.r, fx.w
 	base := fx.ownProposal()
-	if base == nil {
+	if !usableProposal(base) {
+		G.c.Hit("block:skipped-no-base:" + fx.kind)
 		return
 	}
 	head := fx.n.Chain.Head.Height()
@@ -358,10 +359,10 @@ func (G *gen) blocks(fx *fixture) {
 		"identity-root-zero":        func(h *types.ProposedHeader) { h.IdentityRoot = common.Hash{} },
 		"seed-zero":                 func(h *types.ProposedHeader) { h.BlockSeed = types.Seed{} },
 		"seedproof-nil":             func(h *types.ProposedHeader) { h.SeedProof = nil },
-		"seedproof-short":           func(h *types.ProposedHeader) { h.SeedProof = h.SeedProof[:len(h.SeedProof)/2] },
+		"seedproof-short":           func(h *types.ProposedHeader) { h.SeedProof = cut(h.SeedProof, len(h.SeedProof)/2) },
 		"seedproof-long":            func(h *types.ProposedHeader) { h.SeedProof = append(append([]byte{}, h.SeedProof...), 1) },
 		"pubkey-nil":                func(h *types.ProposedHeader) { h.ProposerPubKey = nil },
-		"pubkey-short":              func(h *types.ProposedHeader) { h.ProposerPubKey = h.ProposerPubKey[:20] },
+		"pubkey-short":              func(h *types.ProposedHeader) { h.ProposerPubKey = cut(h.ProposerPubKey, 20) },
 		"pubkey-garbage":            func(h *types.ProposedHeader) { h.ProposerPubKey = make([]byte, 65) },
 		"pubkey-user":               func(h *types.ProposedHeader) { h.ProposerPubKey = crypto.FromECDSAPub(&w.Keys[1].PublicKey) },
 		"time-past":                 func(h *types.ProposedHeader) { h.Time = 0 },
